@@ -341,6 +341,17 @@ def tie(ctx, model_ok=True):
     bc0 = tbl_term([(key_name(k), 0) for k in base_ctor0])
     br0 = tbl_term([(key_name(k), 0) for k in base_repr0])
     ref = reference_outcomes()
+    # the first document of every kind is valid for its class model by construction: a fresh function must load it, whatever
+    # other (same-named, differently shaped) classes this process has seen before
+    for variant in range(4):
+        docs = make_classes(variant)[1]
+        for top in docs:
+            o = ref.get(('load', variant, top, docs[top][0]))
+            if o is not None and o[0] != 'ok':
+                res['failing'].append({'signature': 'history-dependent:fresh-function-rejects-valid-document', 'what':
+                                       f'a fresh load function for class variant {variant} ({top}) gave {o!r} for its valid document '
+                                       f'{docs[top][0]!r}: functions created earlier in the process for same-named classes of another '
+                                       'shape leak into it', 'case': {'ops': [], 'seed': ctx['seed'], 'history': -1}})
     terms, info = [], []
     ncalls = 0
     for hi in range(n_hist):
